@@ -510,12 +510,12 @@ def rule_r4(ctx: Ctx) -> None:
     (sa/rules/depthrules._decider_paths: helper methods inlined, comprehension filters, 'a or b' fall-backs, emptiness
     branches): on every returning path the value is random.choice / choice_weighted of, or an element of, the offered
     list or a list filtered from it by comprehensions that keep the elements themselves."""
-    from .depthrules import ChoiceOf, FiltV, ListSrc, OrList, ParamV, _decider_paths
+    from .depthrules import ChoiceOf, FiltV, ListSrc, OrList, ParamV, _decider_paths, chooser_instances
     from ..absint import SeqV
     prog = ctx.prog
     n = 0
     for meth in ("choose_production_alternatives", "choose_options"):
-        for f in prog.implementations(DECIDER, meth):
+        for f in chooser_instances(prog, meth):
             outs, _ = _decider_paths(ctx, f)
             verdict: Optional[bool] = True
             why = ""
